@@ -39,7 +39,9 @@ def process_resource(fields, rows):
     for row in rows:
         for field in fields:
             op = field['operation']
-            target = field['target']['name']
+            target = field['target']
+            if isinstance(target, dict):
+                target = target['name']
             if isinstance(op, str):
                 values = [
                     row.get(c)
@@ -87,11 +89,6 @@ def add_computed_field(*args, resources=None, **kw):
                 new_fields = get_new_fields(resource, fields)
                 resource['schema']['fields'].extend(new_fields)
         yield package.pkg
-
-        for f in fields:
-            target = f['target']
-            if isinstance(target, str):
-                f['target'] = dict(name=target)
 
         for resource in package:
             if not matcher.match(resource.res.name):
